@@ -177,7 +177,14 @@ def attribute(meta, line):
         for mname, (a, b) in meta.get('module_lines', {}).items():
             if b is not None and a <= line <= b and (inner is None or a >= inner[1]):
                 inner = (mname, a)
-        if inner:
+        lem = None
+        for l in meta.get('lemmas', []):
+            # a `//@lemma <id>` marker names the proof fn that follows it (up to the next marker / extracted fn)
+            if l['line'] <= line and (lem is None or l['line'] > lem['line']) and (inner is None or l['line'] >= inner[1]):
+                lem = l
+        if lem is not None and not any(lem['line'] < f['lines'][0] <= line for f in meta['fns']) and line - lem['line'] < 80:
+            best = {'id': lem['id'], 'anchor': 'lemma %s (module %s)' % (lem['id'], lem.get('module')), 'mode': 'lemma', 'lines': [lem['line'], line]}
+        elif inner:
             best = {'id': 'proof.%s' % inner[0], 'anchor': 'template proof text in module %s' % inner[0], 'mode': 'lemma', 'lines': [line, line]}
     return best
 
